@@ -874,8 +874,14 @@ func (w *aWorld) anchorHonest(st *refmodel.State, party string) {
 
 	// rarely the controller commits its next update key to the key that is also its current recovery key
 	// (the two chains are independent; only create/recover refuse EQUAL update and recovery commitments)
-	if typ == operation.TypeUpdate && p.delta == refmodel.DeltaOK && T.Draw(15, "honest.sharedkey") == 0 {
-		if rk := w.byCommit[st.RecoveryC]; rk != nil && st.RecoveryC != st.UpdateC && rk != p.key {
+	if typ == operation.TypeUpdate && p.delta == refmodel.DeltaOK && T.Draw(10, "honest.sharedkey") == 0 {
+		// ... or to a recovery key that an earlier recover has already retired
+		rk := w.byCommit[st.RecoveryC]
+		if len(w.recKeys) > 1 && T.Draw(2, "honest.sharedkey.retired") == 0 {
+			rk = w.recKeys[T.Draw(len(w.recKeys), "honest.sharedkey.pick")]
+		}
+
+		if rk != nil && rk.Commitment(w.hash) != st.UpdateC && rk != p.key {
 			p.nextUpd = rk
 			w.k.Count("probe:update-key-equals-recovery-key")
 		}
